@@ -1428,3 +1428,162 @@ Section StrictAlias.
     exact (strict_blocks_new_attributes pycast arrcast infer (resolve am a) value hint s S N M R).
   Qed.
 End StrictAlias.
+
+(* ================================================================== reindex() of plain and aliased objects *)
+Lemma fold_left_ext_in {A B} (f g : A -> B -> A) l : (forall a x, In x l -> f a x = g a x) -> forall a, fold_left f l a = fold_left g l a.
+Proof.
+  induction l as [|x l IH]; intros H a; [reflexivity|]. simpl. rewrite (H a x (or_introl eq_refl)).
+  apply IH. intros a' y Hy. apply H. right. exact Hy.
+Qed.
+
+(* EQUALS THE TWIN'S reindex: when no alias is named like a variable, reindexing the aliased object is reindexing the plain one *)
+Theorem alias_reindex_twin am fill new_span s :
+  (forall x, In x (index s) -> ~ In x (akeys (amap am))) ->
+  alias_reindex am fill new_span s = reindex_plain fill new_span s.
+Proof.
+  intros H. unfold alias_reindex, reindex_plain, reindex_with.
+  rewrite (fold_left_ext_in (reindex_name (resolve am) fill new_span s) (reindex_name (fun x => x) fill new_span s)); [reflexivity|].
+  intros a x Hx. unfold reindex_name. unfold resolve. rewrite (aget_nonkey _ _ (H x Hx)). reflexivity.
+Qed.
+
+(* FRAME + storage: the result has the new span, the same index / names / attributes / strict flag / kind, and series only under
+   names that had one or are variables: nothing under alias names *)
+Lemma reindex_name_keys rn fill new_span s acc name vs :
+  reindex_name rn fill new_span s acc name = Ret vs ->
+  exists vs0, acc = Ret vs0 /\ forall x, assoc x vs <> None -> assoc x vs0 <> None \/ x = name.
+Proof.
+  unfold reindex_name. destruct acc as [vs0|e]; [|discriminate].
+  destruct (negb (mem (rn name) (index s))); [discriminate|].
+  destruct (assoc (rn name) (vars s)) as [src|]; [|discriminate].
+  destruct (assoc (rn name) (assoc_set name _ vs0)) as [tgt|] eqn:T; [|discriminate].
+  intros H. inversion H; subst. exists vs0. split; [reflexivity|]. intros x Hx.
+  destruct (string_dec x name) as [->|N1]; [right; reflexivity|left].
+  destruct (string_dec x (rn name)) as [->|N2].
+  - rewrite (assoc_set_neq _ _ _ _ N1) in T. rewrite T. discriminate.
+  - rewrite (assoc_set_neq _ _ _ _ N2), (assoc_set_neq _ _ _ _ N1) in Hx. exact Hx.
+Qed.
+
+Lemma reindex_fold_keys rn fill new_span s : forall l acc vs,
+  fold_left (reindex_name rn fill new_span s) l acc = Ret vs ->
+  exists vs0, acc = Ret vs0 /\ forall x, assoc x vs <> None -> assoc x vs0 <> None \/ In x l.
+Proof.
+  induction l as [|n l IH]; intros acc vs H; simpl in H.
+  - exists vs. split; [exact H|]. intros x Hx. left. exact Hx.
+  - destruct (IH _ _ H) as [vs1 [E1 K1]]. destruct (reindex_name_keys _ _ _ _ _ _ _ E1) as [vs0 [E0 K0]].
+    exists vs0. split; [exact E0|]. intros x Hx. destruct (K1 x Hx) as [H1|H1]; [|right; right; exact H1].
+    destruct (K0 x H1) as [H0|H0]; [left; exact H0|right; left; symmetry; exact H0].
+Qed.
+
+Theorem reindex_frame rn fill new_span s s' :
+  reindex_with rn fill new_span s = Ret s' ->
+  span s' = new_span /\ index s' = index s /\ names s' = names s /\ registry s' = registry s /\ adict s' = adict s /\
+  strict s' = strict s /\ kind s' = kind s /\
+  (forall x, assoc x (vars s') <> None -> assoc x (vars s) <> None \/ In x (index s)).
+Proof.
+  unfold reindex_with. intros H.
+  destruct (fold_left (reindex_name rn fill new_span s) (index s) (Ret (vars s))) as [vs|e] eqn:F; [|discriminate].
+  inversion H; subst. simpl. repeat split.
+  destruct (reindex_fold_keys _ _ _ _ _ _ _ F) as [vs0 [E K]]. inversion E; subst. exact K.
+Qed.
+
+(* a reindexed aliased object holds no series under an alias name (unless a variable of that very name was declared) *)
+Theorem alias_reindex_no_storage_under_aliases am fill new_span s s' k :
+  alias_reindex am fill new_span s = Ret s' ->
+  In k (akeys (amap am)) -> assoc k (vars s) = None -> ~ In k (index s) ->
+  assoc k (vars s') = None /\ ~ In k (index s').
+Proof.
+  intros H _ A NI. destruct (reindex_frame _ _ _ _ _ H) as [_ [EI [_ [_ [_ [_ [_ K]]]]]]].
+  split; [|rewrite EI; exact NI].
+  destruct (assoc k (vars s')) eqn:E; [|reflexivity]. exfalso.
+  destruct (K k) as [C|C]; [rewrite E; discriminate|apply C; exact A|exact (NI C)].
+Qed.
+
+(* ---------------------------------------------------------------- what reindex computes (plain object) *)
+Lemma assoc_set_twice {A} k (a b : A) l : assoc_set k b (assoc_set k a l) = assoc_set k b l.
+Proof.
+  induction l as [|[k0 v0] l IH]; simpl.
+  - rewrite String.eqb_refl. reflexivity.
+  - destruct (String.eqb k k0) eqn:E; simpl; [rewrite String.eqb_refl; reflexivity|]. rewrite E, IH. reflexivity.
+Qed.
+
+Definition reindexed_var (fill : string -> dtype -> pyval) (old_span new_span : list Z) (name : string) (src : var) : var :=
+  mkVar (vdtype src) [length new_span]
+        (write_positions (vdata src) (positions old_span new_span) (repeat (fill name (vdtype src)) (length new_span))).
+
+Lemma write_positions_length src ps : forall dst, length (write_positions src ps dst) = length dst.
+Proof.
+  unfold write_positions. induction ps as [|p ps IH]; intros dst; simpl; [reflexivity|].
+  rewrite IH. destruct (nth_error src (snd p)); [apply upd_length|reflexivity].
+Qed.
+
+Lemma reindex_name_plain fill new_span s vs name src :
+  mem name (index s) = true -> assoc name (vars s) = Some src ->
+  reindex_name (fun x => x) fill new_span s (Ret vs) name = Ret (assoc_set name (reindexed_var fill (span s) new_span name src) vs).
+Proof.
+  intros M A. unfold reindex_name. rewrite M, A. simpl negb. cbv iota.
+  rewrite assoc_set_eq. simpl. rewrite assoc_set_twice. reflexivity.
+Qed.
+
+Lemma reindex_fold_plain fill new_span s : forall l vs,
+  (forall x, In x l -> mem x (index s) = true /\ assoc x (vars s) <> None) ->
+  exists vs', fold_left (reindex_name (fun x => x) fill new_span s) l (Ret vs) = Ret vs' /\
+    (forall x, ~ In x l -> assoc x vs' = assoc x vs) /\
+    (NoDup l -> forall x src, In x l -> assoc x (vars s) = Some src -> assoc x vs' = Some (reindexed_var fill (span s) new_span x src)).
+Proof.
+  induction l as [|n l IH]; intros vs H.
+  - exists vs. split; [reflexivity|]. split; [reflexivity|]. intros _ x src [].
+  - destruct (H n (or_introl eq_refl)) as [M A]. destruct (assoc n (vars s)) as [src|] eqn:An; [|contradiction].
+    cbn [fold_left]. rewrite (reindex_name_plain fill new_span s vs n src M An).
+    destruct (IH (assoc_set n (reindexed_var fill (span s) new_span n src) vs)) as [vs' [F [K1 K2]]];
+      [intros x Hx; apply H; right; exact Hx|].
+    exists vs'. split; [exact F|]. split.
+    + intros x Hx. rewrite K1 by (intros C; apply Hx; right; exact C).
+      apply assoc_set_neq. intros ->. apply Hx. left. reflexivity.
+    + intros ND x src' Hx Ax. inversion ND as [|? ? Hn ND']; subst.
+      destruct Hx as [<-|Hx].
+      * rewrite K1 by exact Hn. rewrite assoc_set_eq. congruence.
+      * apply K2; assumption.
+Qed.
+
+(* reindex of a plain object satisfying the invariant never raises; every variable becomes: the fill cell in periods that are new,
+   its old cell (found by the period's label, first occurrence) in periods that were there; dtype kept; everything else as it was.
+   The result satisfies the invariant for the NEW span, with one cell per period. *)
+Theorem reindex_plain_spec fill new_span s :
+  InvV s ->
+  exists s', reindex_plain fill new_span s = Ret s' /\
+    span s' = new_span /\ index s' = index s /\
+    (forall x src, In x (index s) -> assoc x (vars s) = Some src ->
+                   assoc x (vars s') = Some (reindexed_var fill (span s) new_span x src)) /\
+    (forall x, ~ In x (index s) -> assoc x (vars s') = assoc x (vars s)).
+Proof.
+  intros [ND [HI _]]. unfold reindex_plain, reindex_with.
+  destruct (reindex_fold_plain fill new_span s (index s) (vars s)) as [vs' [F [K1 K2]]].
+  { intros x Hx. split; [apply mem_In; exact Hx|apply HI; exact Hx]. }
+  rewrite F. eexists. split; [reflexivity|]. simpl. split; [reflexivity|]. split; [reflexivity|]. split.
+  - intros x src Hx A. apply (K2 ND x src Hx A).
+  - exact K1.
+Qed.
+
+Theorem reindex_plain_inv fill new_span s s' :
+  Inv s -> (forall x, assoc x (vars s) <> None -> In x (index s)) ->
+  reindex_plain fill new_span s = Ret s' -> Inv s' /\ InvD s'.
+Proof.
+  intros I KS H. destruct (reindex_plain_spec fill new_span s (proj1 I)) as [s2 [H2 [SP [IX [V1 V2]]]]].
+  rewrite H in H2. inversion H2; subst s2. clear H2.
+  destruct (reindex_frame _ _ _ _ _ H) as [_ [_ [EN [_ [_ [_ [EK _]]]]]]].
+  assert (VAR : forall x v, assoc x (vars s') = Some v -> exists src, In x (index s) /\ assoc x (vars s) = Some src /\
+                                                         v = reindexed_var fill (span s) new_span x src).
+  { intros x v A. destruct (in_dec string_dec x (index s)) as [Hx|Hx].
+    - destruct (assoc x (vars s)) as [src|] eqn:As; [|exfalso; exact (proj1 (proj2 (proj1 I)) x Hx As)].
+      exists src. split; [exact Hx|]. split; [reflexivity|]. rewrite (V1 x src Hx As) in A. inversion A. reflexivity.
+    - exfalso. rewrite (V2 x Hx) in A. apply Hx. apply KS. rewrite A. discriminate. }
+  split; [split; [repeat split|]|].
+  - rewrite IX. exact (proj1 (proj1 I)).
+  - intros x Hx A. rewrite IX in Hx.
+    destruct (assoc x (vars s)) as [src|] eqn:As; [|exact (proj1 (proj2 (proj1 I)) x Hx As)].
+    rewrite (V1 x src Hx As) in A. discriminate.
+  - intros x v A. destruct (VAR x v A) as [src [_ [_ ->]]]. unfold n_of. rewrite SP. reflexivity.
+  - intros K. rewrite EN, IX. apply (proj2 I). rewrite <- EK. exact K.
+  - intros x v A. destruct (VAR x v A) as [src [_ [_ ->]]]. unfold n_of. rewrite SP. simpl.
+    rewrite write_positions_length. apply repeat_length.
+Qed.
